@@ -714,6 +714,30 @@ pub fn colr_driver(data: &[u8], _ctx: &[Vec<u8>], _a: [u32; 3], w: &mut Walker) 
             Err(e) => rerr(w, &e),
         }
     }
+    // closures (subsetting helpers in read-fonts): v1 closure over three glyph sets, then the v0 closures
+    {
+        use read_fonts::collections::IntSet;
+        for set in [vec![], (0u32..8).collect::<Vec<_>>(), vec![0u32, 1, 0xFFFE, 0xFFFF]] {
+            let mut glyphs = IntSet::<GlyphId>::new();
+            for g in set {
+                glyphs.insert(GlyphId::new(g));
+            }
+            let (mut layers, mut palettes, mut vars) = (IntSet::<u32>::new(), IntSet::<u16>::new(), IntSet::<u32>::new());
+            colr.v1_closure(&mut glyphs, &mut layers, &mut palettes, &mut vars);
+            w.u(glyphs.len());
+            w.u(layers.len());
+            w.u(palettes.len());
+            w.u(vars.len());
+            w.opt_u(vars.first().map(|v| v as u64));
+            w.opt_u(vars.last().map(|v| v as u64));
+            let mut v0 = IntSet::<GlyphId>::new();
+            colr.v0_closure_glyphs(&glyphs, &mut v0);
+            w.u(v0.len());
+            colr.v0_closure_palette_indices(&v0, &mut palettes);
+            w.u(palettes.len());
+            w.calls += 3;
+        }
+    }
     for i in (0..16usize).chain([255, usize::MAX]) {
         match colr.v1_layer(i) {
             Ok((_p, _id)) => w.tagb(1),
